@@ -286,7 +286,8 @@ def o1(ctx):
                         deps = [y for y in values_in(x) if y.k == 'ext']
                         names = sorted({y.a[0] for y in deps})
                         if names:
-                            shape = (x.a[0] if x.k == 'str' else x.val, tuple(names))
+                            import re as _re
+                            shape = (_re.sub(r'⟦[^⟧]*⟧', '⟦⟧', x.a[0] if x.k == 'str' else str(x.val)), tuple(names))
             if shape and set(shape[1]) >= {'os.getpid', 'threading.get_ident'}:
                 ok = True
         shapes[name] = shape
